@@ -52,15 +52,6 @@ func (m *vfMapperT) GetHandler(name string) (context.Handler, bool) {
 	return h, true
 }
 
-func vfFreePort() int {
-	l, err := net.Listen("tcp", "127.0.0.1:0")
-	if err != nil {
-		return 0
-	}
-	defer l.Close()
-	return l.Addr().(*net.TCPAddr).Port
-}
-
 // TestVerifC13MQTTProxy: MQTTProxy specs accepted by validation must start a broker and serve a
 // CONNECT / SUBSCRIBE / PUBLISH / UNSUBSCRIBE / DISCONNECT exchange (running the MQTT pipelines
 // named by its rules) without panicking.
@@ -109,7 +100,7 @@ func TestVerifC13MQTTProxy(t *testing.T) {
 
 		tree := map[string]interface{}{}
 		g.Struct(specT, "", tree)
-		port := vfFreePort()
+		port := vfPickPort()
 		if port == 0 {
 			rt.Fatalf("VF-INCONCLUSIVE no free TCP port")
 		}
